@@ -262,6 +262,10 @@ def tolist(a):
 def run(ctx):
     ctx.source_hash("sigpy/fourier.py", "sigpy/util.py", "sigpy/linop.py")
     proof_ok = ctx.prove("Prop_C05.v")
+    # tie by translation (DESIGN 2.8): gen/Gen_fourier.v is regenerated from fourier.py (translate_all job "fourier") and compiled;
+    # the lemmas gen__fftc_ok, gen__ifftc_ok, gen_fft_ok, gen_ifft_ok, gen_fft_dtype_ok, gen_ifft_dtype_ok state generated == hand model
+    from tools import translate_fourier
+    tie_broken = translate_fourier.tie(ctx, "fft")    # obligations "translate:sigpy/fourier.py (...)", "tie:generated == hand model (...)"
     sp = core.import_sigpy()
     rng = ctx.rng
     maxlen = ctx.n(7, 16)
@@ -376,8 +380,8 @@ def run(ctx):
                        "observed": tolist(d["y"]), "observed_shape": list(d["y"].shape), "observed_dtype": str(d["y"].dtype),
                        "expected": tolist(ref_fft(d["x"], c["inverse"], c["center"], c["ortho"], c["osh"], c["axes"]))},
                       found_input=bool(ob), signature="C05:" + cls)
-    if (not proof_ok or not corr_ok) and not ctx.violations:
-        broken = getattr(ctx, "broken_proof", {"theorem": "corr:coq-run", "log": "; ".join(ctx.notes)[-1500:]})
+    if (not proof_ok or not corr_ok or tie_broken) and not any(v["found_input"] for v in ctx.violations):
+        broken = getattr(ctx, "broken_proof", tie_broken or {"theorem": "corr:coq-run", "log": "; ".join(ctx.notes)[-1500:]})
         ctx.violation("proof obligation no longer checks: %s" % broken.get("theorem"),
                       {"kind": "proof", "broken": broken}, found_input=False, signature="C05:proof")
     ctx.trusted += TRUSTED
@@ -416,7 +420,9 @@ TRUSTED = [
     "Coq 8.16.1 kernel + vm_compute on PrimFloat (no native_compute, no extraction)",
     "numpy.fft.fftn/ifftn compute the explicit DFT sum with the documented scalings, fftshift/ifftshift = roll by n//2 / -(n//2) "
     "(oracle; exercised by this run's correspondence and by the explicit DFT-matrix comparison)",
-    "hand model coq/model/Fourier.v (+ model/Rearrange.v resize), tied by this run's correspondence",
+    "hand model coq/model/Fourier.v (+ model/Rearrange.v resize), tied by this run's correspondence and, as the reading of fft / ifft / "
+    "_fftc / _ifftc, by tools/translate_fourier.py (fail-closed ast translator, readings in notes/translate_fourier.md) + the lemmas of "
+    "gen/Gen_fourier.v (part fft)",
     "twiddle tables cos/sin(2 pi m/n) computed in Python, validated inside Coq (group law, unit modulus, orientation)",
     "the abstract ring theorems apply to C with w = exp(-2 pi i/n) (root-of-unity hypotheses are the section hypotheses)",
 ]
